@@ -33,13 +33,10 @@ pub(crate) fn visit_selection_set<TCompilationProfile: CompilationProfile>(
 
                 let selectable =
                     match selectable_named(db, parent_entity.name.item, object_selection.name.item)
-                        .as_ref()
-                        .expect(
-                            "Expected parsing to have succeeded. \
-                            This is indicative of a bug in Isograph.",
-                        ) {
-                        Some(s) => s,
-                        None => continue,
+                    {
+                        Ok(Some(s)) => s,
+                        // not defined, or defined multiple times
+                        Ok(None) | Err(_) => continue,
                     };
 
                 let target_entity = match selectable {
